@@ -221,3 +221,50 @@ class Ctx:
 
     def proves(self, L):
         return self.proves_basic(L)
+
+
+# ---- library postconditions usable as facts (each is a documented property of the std / regex API; listed in DESIGN.md A10)
+
+TRIMS = ('trim', 'trim_start', 'trim_end', 'trim_matches', 'trim_start_matches', 'trim_end_matches', 'strip_prefix', 'strip_suffix')
+
+
+def lib_facts(ctx, terms):
+    """adds, for every recognised sub-term of `terms`:
+       * c = a char read by chars().next() from S[x..]      : x + len_utf8(c) <= len(S), len_utf8(c) >= 1
+       * t = S.trim*(..)                                     : len(t) <= len(S)
+       * m = Regex::find(re, H) (its Some payload)           : m.start() <= m.end() <= len(H)"""
+    seen = set()
+    for root in terms:
+        for x in subterms(root):
+            if not (isinstance(x, tuple) and x and x[0] == 'call') or x in seen:
+                continue
+            seen.add(x)
+            nm = strip_generics(x[1]).split('::')[-1]
+            if nm == 'len_utf8' and x[2]:
+                c = canon_atom(x[2][0])
+                ctx.add_ge(Lin({x: 1}).plus(-1), 'len_utf8(c) >= 1')
+                # peel unwrap / Some payload down to next(chars(index(S, RangeFrom(k))))
+                y = c
+                while isinstance(y, tuple) and y and (y[0] in ('field', 'downcast') or (y[0] == 'call' and strip_generics(y[1]).split('::')[-1] in ('unwrap', 'expect'))):
+                    y = canon_atom(y[1] if y[0] != 'call' else y[2][0])
+                if isinstance(y, tuple) and y and y[0] == 'call' and strip_generics(y[1]).split('::')[-1] == 'next':
+                    it = canon_atom(y[2][0])
+                    if isinstance(it, tuple) and it and it[0] == 'call' and strip_generics(it[1]).split('::')[-1] == 'chars':
+                        ctx.add_ge(length_of(it[2][0]) - Lin({x: 1}), 'a char read from S[k..] lies inside S: k + len_utf8(c) <= len(S)')
+            elif nm == 'len' and x[2]:
+                t = canon_atom(x[2][0])
+                if isinstance(t, tuple) and t and t[0] == 'call' and strip_generics(t[1]).split('::')[-1] in TRIMS and t[2]:
+                    ctx.add_ge(length_of(t[2][0]) - Lin({('LEN', t): 1}), 'len(S.trim*(..)) <= len(S)')
+            elif nm in ('end', 'start') and x[2]:
+                m = canon_atom(x[2][0])
+                y = m
+                while isinstance(y, tuple) and y and y[0] in ('field', 'downcast'):
+                    y = canon_atom(y[1])
+                while isinstance(y, tuple) and y and y[0] == 'call' and strip_generics(y[1]).split('::')[-1] in ('unwrap', 'expect') and y[2]:
+                    y = canon_atom(y[2][0])
+                if isinstance(y, tuple) and y and y[0] == 'call' and strip_generics(y[1]).split('::')[-1] == 'find' and 'regex' in y[1].lower() and len(y[2]) == 2:
+                    H = y[2][1]
+                    if nm == 'end':
+                        ctx.add_ge(length_of(H) - Lin({x: 1}), 'Match::end() <= len(haystack)')
+                        st = ('call', x[1][:-3] + 'start', x[2])
+                        ctx.add_ge(Lin({x: 1}) - Lin({st: 1}), 'Match::start() <= Match::end()')
